@@ -586,10 +586,15 @@ def emitMember (m : Member) : Option String :=
 def processPkg (skips : List String) (members : List Member) : List String :=
   (isort memberLe (members.filter fun m => !skips.contains m.name)).filterMap emitMember
 
-/-- ssa/abitype.go `getAbiTypesFor`: `syms` is what `range prog.abiSymbol` delivers; result = the `fields` array -/
+/-- ssa/abitype.go `getAbiTypesFor`, the `names` slice after `sort.Strings`: `syms` is what `range prog.abiSymbol` delivers
+    (name, descriptor), `filter` the caller's predicate (`nil` = `fun _ => true`; internal/build `genMainModule` passes
+    "defined by a linked module ∧ `filterAbiSymbol abiInit`").  BOTH branches of the Go function end in the same sort. -/
+def abiTypeNames (filter : String → Bool) (syms : List (String × String)) : List String :=
+  isort strLe ((syms.filter fun kv => filter kv.1).map (·.1))
+
+/-- ssa/abitype.go `getAbiTypesFor`: result = the `fields` array (`name$array`), one pointer per listed name -/
 def abiTypesFor (filter : String → Bool) (syms : List (String × String)) : List String :=
-  let names := isort strLe ((syms.filter fun kv => filter kv.1).map (·.1))
-  names.map fun n => match syms.find? (fun kv => kv.1 == n) with
+  (abiTypeNames filter syms).map fun n => match syms.find? (fun kv => kv.1 == n) with
     | some kv => n ++ "=" ++ kv.2
     | none => n
 
